@@ -36,6 +36,7 @@ type State struct {
 	held  map[string]bool // lock tokens held
 	ghost map[string]Val
 	calls []string // names of the functions called so far on this path
+	defers []deferredCall // deferred calls registered on this path (innermost frame last)
 }
 
 func newState() *State {
@@ -45,7 +46,7 @@ func newState() *State {
 func (s *State) clone() *State {
 	n := &State{vars: make(map[types.Object]Val, len(s.vars)), heap: make(map[string]string, len(s.heap)),
 		pc: append([]string(nil), s.pc...), seen: make(map[string]bool, len(s.seen)), held: make(map[string]bool, len(s.held)),
-		ghost: make(map[string]Val, len(s.ghost)), calls: append([]string(nil), s.calls...)}
+		ghost: make(map[string]Val, len(s.ghost)), calls: append([]string(nil), s.calls...), defers: append([]deferredCall(nil), s.defers...)}
 	for k, v := range s.vars {
 		n.vars[k] = v
 	}
@@ -189,8 +190,9 @@ type Ctx struct {
 }
 
 type deferredCall struct {
-	call *ast.CallExpr
-	env  *Env
+	call  *ast.CallExpr
+	env   *Env
+	frame *frame
 }
 
 func (c *Ctx) fresh(prefix, sort string) string {
